@@ -283,6 +283,10 @@ class Ctx:
             pass
         return guess
 
+    def _value_count(self, what):
+        n = self.env.setdefault('concretized', {})
+        n[what] = n.get(what, 0) + 1
+
     def nondet(self, label='nondet') -> bool:
         """Engine-side nondeterministic choice (both outcomes explored)."""
         b = z3.Bool(self.fresh_name(label))
@@ -295,6 +299,17 @@ class Ctx:
             return term.as_long()
         if lo == hi:
             return int(lo)
+        if lo != -INF and hi != INF and 8 < hi - lo <= max(self.fork_limit, 4096):
+            # finite range: bisect with binary decisions (O(log n) decisions per path)
+            a, b = int(lo), int(hi)
+            while a < b:
+                mid = (a + b) // 2
+                if self.decide(term <= mid):
+                    b = mid
+                else:
+                    a = mid + 1
+            self._value_count(what)
+            return a
         excluded = []
         if self.pos < len(self.prefix):
             entry = self.prefix[self.pos]
@@ -615,6 +630,9 @@ class SymInt:
 
     # -- arithmetic ----------------------------------------------------------
     def __add__(self, o):
+        if isinstance(o, float) or type(o).__name__ == 'SymFloat':
+            from . import floats
+            return floats.from_int(self).__add__(o)
         if isinstance(o, (int, SymInt, SymBool)):
             if isinstance(o, int) and o == 0:
                 return self
@@ -625,6 +643,9 @@ class SymInt:
     __radd__ = __add__
 
     def __sub__(self, o):
+        if isinstance(o, float) or type(o).__name__ == 'SymFloat':
+            from . import floats
+            return floats.from_int(self).__sub__(o)
         if isinstance(o, (int, SymInt, SymBool)):
             if isinstance(o, int) and o == 0:
                 return self
@@ -635,6 +656,9 @@ class SymInt:
         return NotImplemented
 
     def __rsub__(self, o):
+        if isinstance(o, float) or type(o).__name__ == 'SymFloat':
+            from . import floats
+            return floats.from_int(self).__rsub__(o)
         if isinstance(o, (int, SymBool)):
             olo, ohi = bounds_of(o)
             return mk_int(term_of(o) - self.t, olo - self.hi, ohi - self.lo)
@@ -654,6 +678,9 @@ class SymInt:
         return mk_int(z3.If(self.t >= 0, self.t, -self.t), 0, max(-self.lo, self.hi))
 
     def __mul__(self, o):
+        if isinstance(o, float) or type(o).__name__ == 'SymFloat':
+            from . import floats
+            return floats.from_int(self).__mul__(o)
         if isinstance(o, SymBool):
             o = o._as_int()
         if isinstance(o, int):
@@ -699,21 +726,33 @@ class SymInt:
         return sx_divmod(o, self)
 
     def __floordiv__(self, o):
+        if isinstance(o, float) or type(o).__name__ == 'SymFloat':
+            from . import floats
+            return floats.from_int(self).__floordiv__(o)
         if isinstance(o, (int, SymInt)):
             return sx_divmod(self, o)[0]
         return NotImplemented
 
     def __rfloordiv__(self, o):
+        if isinstance(o, float) or type(o).__name__ == 'SymFloat':
+            from . import floats
+            return floats.from_int(self).__rfloordiv__(o)
         if isinstance(o, int):
             return sx_divmod(o, self)[0]
         return NotImplemented
 
     def __mod__(self, o):
+        if isinstance(o, float) or type(o).__name__ == 'SymFloat':
+            from . import floats
+            return floats.from_int(self).__mod__(o)
         if isinstance(o, (int, SymInt)):
             return sx_divmod(self, o)[1]
         return NotImplemented
 
     def __rmod__(self, o):
+        if isinstance(o, float) or type(o).__name__ == 'SymFloat':
+            from . import floats
+            return floats.from_int(self).__rmod__(o)
         if isinstance(o, int):
             return sx_divmod(o, self)[1]
         return NotImplemented
